@@ -61,6 +61,7 @@ func runC01(r *harness.Run) {
 		"number->string conversions are compared only where %.14g and the shortest round-trip rendering agree",
 	}
 	runPinned(r, "C01")
+	c01SignedZero(r)
 	pr.runGens(gens, append(order, korder...))
 }
 
